@@ -143,14 +143,37 @@ def padding(index: RepoIndex, rep, rule: str, sub: Subgrid) -> None:
             return 0 <= a <= env['self.area.ymax'] and 0 <= b <= env['self.area.xmax']
         return NotImplemented
 
-    for H, W in itertools.product((1, 2, 3), repeat=2):
-        for y, x in itertools.product(range(-3, 6), repeat=2):
+    ap = sub.area_param
+    if getattr(sub, 'n_returns', 1) > 1:
+        # several return paths selected by the position of the area: enumerate small areas
+        spans = [(lo, hi) for lo in range(-2, 4) for hi in range(lo, 5)]
+        sizes = [(1, 1), (2, 3), (3, 2)]
+    else:
+        spans = [None]
+        sizes = list(itertools.product((1, 2, 3), repeat=2))
+    points = []
+    for (H, W), ys_, xs_ in itertools.product(sizes, spans, spans):
+        if ys_ is None:
+            cells_ = itertools.product(range(-3, 6), repeat=2)
+            ab = {}
+        else:
+            cells_ = itertools.product(range(ys_[0], ys_[1] + 1), range(xs_[0], xs_[1] + 1))
+            ab = {f'{ap}.ymin': ys_[0], f'{ap}.ymax': ys_[1], f'{ap}.xmin': xs_[0],
+                  f'{ap}.xmax': xs_[1], f'{ap}.height': ys_[1] - ys_[0] + 1,
+                  f'{ap}.width': xs_[1] - xs_[0] + 1}
+        for y, x in cells_:
+            points.append((H, W, y, x, ab))
+    for H, W, y, x, ab in points:
+        if True:
             env = {sub.outer_var: y, sub.inner_var: x,
                    'self.area.height': H, 'self.area.width': W,
                    'self.shape.height': H, 'self.shape.width': W,
+                   'self.shape.as_tuple[0]': H, 'self.shape.as_tuple[1]': W,
+                   'self.shape[0]': H, 'self.shape[1]': W,
                    'len(self.objects)': H, 'len(self.objects[0])': W,
                    'self.area.ymax': H - 1, 'self.area.xmax': W - 1,
                    'self.area.ymin': 0, 'self.area.xmin': 0}
+            env.update(ab)
             try:
                 got = bool(ev(test, env, call))
                 r = ev(ast.parse(cell_r, mode='eval').body, env, call)
@@ -291,7 +314,7 @@ def masking(index: RepoIndex, rep, rule: str, pipe: Pipeline) -> None:
 def run(index: RepoIndex, rep) -> None:
     rep.rule('C05.R7', 'row and column quantities are not exchanged when slicing, masking and building the view (axis typing, E14)', floor=1)
     from ..axes import axis_rule
-    axis_rule(index, rep, 'C05.R7', ('gym_gridverse/grid.py', 'gym_gridverse/envs/observation_functions.py', 'gym_gridverse/envs/visibility_functions.py'), floor=50)
+    axis_rule(index, rep, 'C05.R7', ('gym_gridverse/grid.py', 'gym_gridverse/envs/observation_functions.py', 'gym_gridverse/envs/visibility_functions.py'), floor=20)
     geo = Geometry(index)
     pipe = Pipeline(index, geo)
     sub = Subgrid(index)
